@@ -8,8 +8,11 @@ type C02Side struct {
 	// and the legacy Plugins field holds the very set object registered under OverlapSetOf (another entry
 	// of VersionedPlugins). The entry of VersionedPlugins is the one in force for that version
 	// (client.go: "VersionedPlugins doesn't conflict").
-	Overlap      *int `json:"overlap,omitempty"`
-	OverlapSetOf *int `json:"overlapSetOf,omitempty"`
+	// HandshakeOnly (host side): HandshakeConfig.ProtocolVersion is this (non-zero) number while Plugins is nil
+	// and VersionedPlugins has no entry for it: the host does not offer that version
+	HandshakeOnly *int `json:"handshakeOnly,omitempty"`
+	Overlap       *int `json:"overlap,omitempty"`
+	OverlapSetOf  *int `json:"overlapSetOf,omitempty"`
 }
 
 func (s C02Side) Set() []int {
